@@ -365,6 +365,14 @@ def sym_exec(toks, ivar, params, known, what, cur=None):
             if cur != "Var i":
                 raise TransError("%s: `*%s +=` after self was overwritten" % (what, ivar))
             cur = "Var (i + %s)" % arith(e, env)
+        elif p.accept("*", ivar, "-="):
+            e = []
+            while not p.eof() and p.peek() != ";":
+                e.append(p.next())
+            p.accept(";")
+            if cur != "Var i":
+                raise TransError("%s: `*%s -=` after self was overwritten" % (what, ivar))
+            cur = "Var (i - %s)" % arith(e, env)
         elif p.accept("*", "self", "=", "Var"):
             cur = "Var (%s)" % arith(p.parens(), env)
             p.accept(";")
